@@ -46,6 +46,9 @@ type Config struct {
 	// twap module: RecordHistoryKeepPeriod (ms) and the per-block pruning limit
 	KeepMs     int64 `json:"keep_ms"`
 	PruneLimit int   `json:"prune_limit"`
+	// SameBlockFund: the CL pool receives its first position in the block that creates it (the record
+	// written at creation sees a spot-price error, the end of that block does not)
+	SameBlockFund bool `json:"same_block_fund,omitempty"`
 }
 
 // Op is one symbol: an action executed in the current block followed by the block boundary
@@ -226,6 +229,11 @@ func NewWorld(cfg Config, r *core.Result) (*World, sdk.Context, *Ledger) {
 	work, _ := ctx.CacheContext()
 	l := &Ledger{DayStart: ms(core.GenesisTime), PosLiq: osmomath.ZeroDec()}
 	l.Touch = [2]bool{true, true} // creation
+	if cfg.SameBlockFund {
+		if _, out := w.Apply(work, l, Op{A: "toggle"}, func(a, s, d string) { panic("harness: setup: " + a + ": " + d) }); out != "ok" {
+			panic("harness: setup: first position refused: " + out)
+		}
+	}
 	work = w.boundary(work, l, 1000, func(a, s, d string) { panic("harness: setup: " + a + ": " + d) })
 	return w, work, l
 }
